@@ -54,6 +54,11 @@ def gen_contract_asm(rng, nblocks_init=2, nblocks_run=4, block_kw=None, blocks=N
         asm[".data"]["1"] = {".auxdata": "a264%04x" % rng.getrandbits(16), ".code": code_of(extra, rng, first_tag=20)}
         if rng.random() < 0.5:
             asm[".data"]["1"][".data"] = {"0": {".auxdata": "a2", ".code": [entry(("STOP", None))]}}
+        if rng.random() < 0.4:
+            # creation code of a child contract: its metadata hangs from its own nested run-time code, it has none itself
+            del asm[".data"]["1"][".auxdata"]
+    if rng.random() < 0.1 and not blocks:
+        del asm[".data"]["0"][".auxdata"]          # --no-cbor-metadata builds, Yul objects
     return asm
 
 
